@@ -33,9 +33,23 @@ func c01Token(c *h.Ctx, cat_ string, ttype uint16, nonce, chal, kid []byte, nk i
 	}
 }
 
+// voprfKeyWithLastByte searches derived keys for a token key id ending in the given byte.
+func voprfKeyWithLastByte(c *h.Ctx, suite oprf.Suite, last byte) *oprf.PrivateKey {
+	for {
+		sk, _ := oprf.DeriveKey(suite, oprf.VerifiableMode, rnd(c, 32), nil)
+		pk, _ := sk.Public().MarshalBinary()
+		if id := sha256Bytes(pk); id[31] == last {
+			return sk
+		}
+	}
+}
+
 func c01Type1(c *h.Ctx, chalLens []int, nKeys int) {
-	for ki := 0; ki < nKeys; ki++ {
+	for ki := 0; ki < nKeys+2; ki++ {
 		sk, _ := oprf.DeriveKey(oprf.SuiteP384, oprf.VerifiableMode, rnd(c, 32), nil)
+		if ki >= nKeys { // key ids whose truncated byte is 00 / ff
+			sk = voprfKeyWithLastByte(c, oprf.SuiteP384, []byte{0x00, 0xff}[ki-nKeys])
+		}
 		iss := type1.NewBasicPrivateIssuer(sk)
 		kid := iss.TokenKeyID()
 		for _, cl := range chalLens {
@@ -74,8 +88,12 @@ func c01Type1(c *h.Ctx, chalLens []int, nKeys int) {
 }
 
 func c01Type2(c *h.Ctx, chalLens []int, nKeys int) {
-	for ki := 0; ki < nKeys; ki++ {
+	special := specialRSAKeyList()
+	for ki := 0; ki < nKeys+len(special); ki++ {
 		key := rsaKey(ki)
+		if ki >= nKeys {
+			key = special[ki-nKeys] // token key ids with a boundary byte (00 / 01 / ff) where they are truncated
+		}
 		iss := type2.NewBasicPublicIssuer(key)
 		kid := iss.TokenKeyID()
 		for _, cl := range chalLens {
@@ -110,7 +128,18 @@ func c01Type2(c *h.Ctx, chalLens []int, nKeys int) {
 }
 
 func c01Type5(c *h.Ctx, chalLens []int, batches []int) {
-	sk, _ := oprf.DeriveKey(oprf.SuiteRistretto255, oprf.VerifiableMode, rnd(c, 32), nil)
+	for _, last := range []int{-1, 0x00, 0xff} {
+		sk, _ := oprf.DeriveKey(oprf.SuiteRistretto255, oprf.VerifiableMode, rnd(c, 32), nil)
+		bs := batches
+		if last >= 0 {
+			sk = voprfKeyWithLastByte(c, oprf.SuiteRistretto255, byte(last))
+			bs = []int{1, 3}
+		}
+		c01Type5Key(c, chalLens, bs, sk)
+	}
+}
+
+func c01Type5Key(c *h.Ctx, chalLens []int, batches []int, sk *oprf.PrivateKey) {
 	iss := type5.NewBatchedPrivateIssuer(sk)
 	kid := iss.TokenKeyID()
 	for bi, n := range batches {
@@ -163,12 +192,27 @@ func c01Type5(c *h.Ctx, chalLens []int, batches []int) {
 }
 
 func c01Type3(c *h.Ctx, chalLens []int, nameLens []int) {
-	for ni, nl := range nameLens {
-		name := string(nameOfLen(c, nl, ni%2))
+	// host-name shaped origins, registered and requested with the same spelling
+	shapes := []string{"origin.example", "origin.example.", "Origin.Example", "ORIGIN.EXAMPLE", " origin.example", "origin.example ", "a..b", ".", "..",
+		"*.example", "origin.example:443", "https://origin.example/", "xn--bcher-kva.example", "b\u00fccher.example", "origin.example,other.example", "origin\x00.example", "-", "0"}
+	special := specialRSAKeyList()
+	for ni := 0; ni < len(nameLens)+len(shapes); ni++ {
+		var name string
+		nl := -1
+		if ni < len(nameLens) {
+			nl = nameLens[ni]
+			name = string(nameOfLen(c, nl, ni%2))
+		} else {
+			name = shapes[ni-len(nameLens)]
+			nl = len(name)
+		}
 		env := newT3(c, ni, rnd(c, 32), map[string][]byte{name: rnd(c, 48), "other.example": rnd(c, 48)})
+		if ni%3 == 0 && len(special) > 0 { // token keys whose key id has a boundary first / last byte
+			env = newT3WithKey(c, special[(ni/3)%len(special)], rnd(c, 32), map[string][]byte{name: rnd(c, 48), "other.example": rnd(c, 48)})
+		}
 		client := type3.NewRateLimitedClientFromSecret(rnd(c, 48))
 		chal, nonce := rnd(c, chalLens[ni%len(chalLens)]), rnd(c, 32)
-		det := map[string]any{"type": 3, "origin_len": nl, "challenge_len": len(chal)}
+		det := map[string]any{"type": 3, "origin_len": nl, "origin": h.Hex([]byte(name)), "challenge_len": len(chal)}
 		st, err := env.request(client, chal, nonce, rnd(c, 48), name)
 		if err != nil {
 			det["err"] = err.Error()
